@@ -40,7 +40,7 @@ def xml_elem(name, wire_ty, v, legacy):
     raise ValueError(t)
 
 
-def make(cases_path, files_path, seed):
+def make(cases_path, files_path, seed, fmts=('bin', 'xml')):
     n = 0
     with open(files_path, 'w') as out:
         for line in open(cases_path):
@@ -53,7 +53,7 @@ def make(cases_path, files_path, seed):
                 continue
             rng = random.Random(f'{seed}-{rec["n"]}')
             # ---- binary, both PROP chunk orders
-            for order in ('legacy-first', 'new-first') if new else ('legacy-only',):
+            for order in (('legacy-first', 'new-first') if new else ('legacy-only',)) if 'bin' in fmts else ():
                 props = {leg['name']: to_wire_value(leg['value'], rng)}
                 if new:
                     props[new['wire_name']] = to_wire_value(new['value'], rng)
@@ -71,7 +71,7 @@ def make(cases_path, files_path, seed):
                                       'expected': expected, 'tags': ['r-bin', order, leg['name']], 'sig': f':r-bin:{leg["name"]}' + (f'={leg["value"]["v"]}' if leg['value']['t'] == 'Enum' else '')}) + '\n')
                 n += 1
             # ---- XML, both element orders
-            for order in ('legacy-first', 'new-first') if new else ('legacy-only',):
+            for order in (('legacy-first', 'new-first') if new else ('legacy-only',)) if 'xml' in fmts else ():
                 try:
                     elems = [xml_elem(leg['name'], leg['wire_ty'], leg['value'], True)]
                     if new:
